@@ -352,7 +352,7 @@ func fieldOf(v zed.Value, name string) (zed.Value, bool) {
 		return zed.Null, false
 	}
 	it := v.Iter()
-	for ; i > 0; i-- {
+	for n := i; n > 0; n-- {
 		it.Next()
 	}
 	return zed.NewValue(rt.Fields[i].Type, it.Next()), true
